@@ -388,31 +388,36 @@ func c14LenCases(r *Run, fn *ssa.Function, terms map[string]int, min int) []int 
 	return out
 }
 
-// c14ValueUnder: v as it is on the paths of the walk — a φ is the one value that arrives over the edges
-// the walk takes; nil when several different values can arrive.
-func c14ValueUnder(v ssa.Value, reach *Reach, depth int) ssa.Value {
+// c14ValuesUnder: the values v can have on the paths of the walk — a φ is any of the values that arrive
+// over the edges the walk takes; nil when that cannot be followed to the end.
+func c14ValuesUnder(v ssa.Value, reach *Reach, depth int) []ssa.Value {
 	ph, ok := v.(*ssa.Phi)
 	if !ok {
-		return v
+		return []ssa.Value{v}
 	}
 	if depth > 6 {
 		return nil
 	}
-	var res ssa.Value
+	var out []ssa.Value
 	for i, e := range ph.Edges {
-		if i >= len(ph.Block().Preds) || !reach.Edges[[2]int{ph.Block().Preds[i].Index, ph.Block().Index}] {
+		if i >= len(ph.Block().Preds) || !reach.Edges[[2]int{ph.Block().Preds[i].Index, ph.Block().Index}] || e == ssa.Value(ph) {
 			continue
 		}
-		if e == ssa.Value(ph) {
-			continue
-		}
-		x := c14ValueUnder(e, reach, depth+1)
-		if x == nil || (res != nil && x != res && !(isNilConst(x) && isNilConst(res))) {
+		xs := c14ValuesUnder(e, reach, depth+1)
+		if xs == nil {
 			return nil
 		}
-		res = x
+	next:
+		for _, x := range xs {
+			for _, o := range out {
+				if o == x {
+					continue next
+				}
+			}
+			out = append(out, x)
+		}
 	}
-	return res
+	return out
 }
 
 // c14EmptyBytes: v is a byte slice of length 0 whatever happens — nil, []byte{}, make([]byte, 0),
@@ -524,22 +529,29 @@ func c14Writer(r *Run, fn *ssa.Function) (emptyWritten bool) {
 			if !reach.Has(b) {
 				continue
 			}
-			hv := c14ValueUnder(CallArgs(b)[4], reach, 0)
+			hvs := c14ValuesUnder(CallArgs(b)[4], reach, 0)
 			what := fmt.Sprintf("a validated path of %d certificates (%d issuers)", n, n-1)
-			switch {
-			case hv == nil:
+			if len(hvs) == 0 {
 				ok, detail = false, "undecided: for "+what+" the chain hash embedded is "+r.D.DUnder(CallArgs(b)[4], reach)
-			case c14EmptyBytes(hv):
-				if n == 1 {
-					emptyWritten = true
-					seen = append(seen, "n=1: empty hash")
-				} else {
-					ok, detail = false, "for "+what+" the leaf embeds an empty chain hash ("+r.D.D(hv)+"): the issuers are neither stored nor referenced, and readers are served an empty chain"
+			}
+			for _, hv := range hvs {
+				if !ok {
+					break
 				}
-			default:
+				if c14EmptyBytes(hv) {
+					if n == 1 {
+						emptyWritten = true
+						seen = append(seen, "n=1: empty hash")
+					} else {
+						ok, detail = false, "for "+what+" the leaf embeds an empty chain hash ("+r.D.D(hv)+"): the issuers are neither stored nor referenced, and readers are served an empty chain"
+					}
+					continue
+				}
 				isStored, got := c14StoredHash(r, hv)
 				if isStored {
-					stored++
+					if n >= 2 {
+						stored++
+					}
 					seen = append(seen, fmt.Sprintf("n=%d: %s", n, got))
 				} else {
 					ok, detail = false, "for "+what+" the chain hash embedded is "+got+", not the hash add() returned for asn1.Marshal(raw[1:])"
